@@ -1053,7 +1053,7 @@ def gl_certificates(ctx, gl_tables):
         X = [int(x * (1 << E)) for x in xs]
         W = [int(w * (1 << F)) for w in ws]
         s = ("From Coq Require Import Reals ZArith List.\nFrom Bignums Require Import BigZ.\nFrom Coquelicot Require Import Coquelicot.\n"
-             "From SpdVerif Require Import Base.NumOps Gen.Integration Model.Quadrature Proofs.C12_rule Proofs.C12_cert.\n"
+             "From SpdVerif Require Import Base.NumOps Gen.Integration Model.Quadrature Proofs.C12_rule Proofs.C12_cert Proofs.C12_gl_cert.\n"
              "Import ListNotations.\n")
         s += f"(* Gauss-Legendre rule with {n} points as extracted from Integrator::GaussLegendre {{ degree: {n} }}.integrate on [-1,1]:\n" \
              f"   nodes X_i / 2^{E}, weights W_i / 2^{F} (exact binary64 values) *)\n"
@@ -1062,6 +1062,9 @@ def gl_certificates(ctx, gl_tables):
         s += f"Lemma cert : cert_check_big {E} {F} {2 * n - 1} 1 {GL_EPS_DEN} xs ws = true.\nProof. vm_compute. reflexivity. Qed.\n"
         s += f"Definition gl_{n}_exact := certified_rule_exact {E} {F} {2 * n - 1} 1 {GL_EPS_DEN} xs ws eq_refl eq_refl eq_refl cert.\n"
         s += f"Check (gl_{n}_exact : forall (a b : R) (cs : list C), (length cs <= {2 * n})%nat -> _).\n"
+        s += f"Lemma range : range_check_big {E} xs ws = true.\nProof. vm_compute. reflexivity. Qed.\n"
+        s += f"Definition gl_{n}_expi := certified_rule_expi_exact {E} {F} {2 * n - 1} 1 {GL_EPS_DEN} xs ws eq_refl eq_refl eq_refl cert range.\n"
+        s += f"Check (gl_{n}_expi : forall (a b k : R) (amp : C), k <> 0 -> a <> b -> _).\n"
         s += f"Goal True. idtac \"CERT {n} OK\". Abort.\n"
         if n == biggest:
             s += f"Print Assumptions gl_{n}_exact.\n"
@@ -1089,8 +1092,8 @@ def gl_certificates(ctx, gl_tables):
                     ctx.proof_failures.append((f"Cases/C12_gl/gl_{n}.v", "Print Assumptions", "unexpected axioms: " + ", ".join(bad)))
             if not ok[n]:
                 ctx.log(f"   certificate for n = {n} failed: " + out[-300:].replace("\n", " | "))
-    ctx.cov["obligations"] += 2 * len(files)
-    ctx.cov["discharged"] += 2 * sum(1 for v in ok.values() if v)
+    ctx.cov["obligations"] += 4 * len(files)
+    ctx.cov["discharged"] += 4 * sum(1 for v in ok.values() if v)
     ctx.cov["checker_cmd"] += f"; coqc -Q coq SpdVerif coq/Cases/C12_gl/gl_<n>.v ({len(files)} extracted Gauss-Legendre rules, moment certificate by vm_compute)"
     ctx.log(f"S4 C12_gl: {sum(1 for v in ok.values() if v)}/{len(files)} extracted Gauss-Legendre rules certified "
             f"(all moments k <= 2n-1 within 1/{GL_EPS_DEN}) in {time.time()-t:.1f}s")
@@ -1181,7 +1184,7 @@ def run(ctx):
     cases_ok = cert_ok = False
     if not msgs:
         cases_ok = proved or coq_build(ctx, ["Proofs/C12_cases.vo"], timeout=900)[0]
-        cert_ok = proved or coq_build(ctx, ["Proofs/C12_cert.vo"], timeout=900)[0]
+        cert_ok = proved or coq_build(ctx, ["Proofs/C12_gl_cert.vo"], timeout=900)[0]
     rng = random.Random(ctx.seed)
     obs0 = run_jobs(ctx, binp, count_jobs(), nproc=4)
     counts = {int(k[1:]): o["evals"] - 1 for k, o in obs0.items() if o.get("ok") and o.get("evals", 0) > 1}
@@ -1201,7 +1204,7 @@ def run(ctx):
         if cert_ok:
             gl_certificates(ctx, gl_tables)
         else:
-            ctx.note("Gauss-Legendre certificates skipped: Proofs/C12_cert.vo did not build")
+            ctx.note("Gauss-Legendre certificates skipped: Proofs/C12_gl_cert.vo did not build")
     else:
         ctx.note("correspondence cases skipped: generated model did not compile")
     def baseline(v):
@@ -1241,7 +1244,7 @@ def run(ctx):
         "Simpson exact on complex cubics, every interval, every accepted divs (1-D) / even divs>=4 (2-D)": "proved (translated kernels over R/C) + measured 1e-12 (binary64) + Q-model correspondence",
         "n-point Gauss-Legendre exact to degree 2n-1": "proved per extracted rule: kernel-checked moment certificate (1e-13) + C12_certified_rule_exact, re-extracted every run; binary64 evaluation measured",
         "adaptive Simpson exact on cubics (a<=b), Richardson step exact to degree 5, accepted panel error <= eps": "proved",
-        "smooth oscillatory integrands within textbook bound / tolerance": "REFUTED for adaptive Simpson (Findings/C12_adaptive_alias.v: exp(4ix) on [0,2pi] returns 2pi for every tolerance); proved for Simpson 1-D on amp*exp(ikx) (C12_simpson_expi_bound: |b-a| h^4 k^4 |amp|/180, every interval/k/amplitude/accepted divs); Gauss-Legendre bound and the adaptive methods' tolerances validated_only (oracle on amp*exp(ikx))",
+        "smooth oscillatory integrands within textbook bound / tolerance": "proved for Simpson 1-D (C12_simpson_expi_bound: |b-a| h^4 k^4 |amp|/180) and 2-D separable (C12_simpson2d_expi_bound); proved for every extracted Gauss-Legendre rule from the run's certificate + Taylor remainder (C12_certified_rule_expi_exact, instantiated per rule: |amp| |b-a|/2 (eps sum_{m<2n} |ku|^m/m! + (4+eps) |ku|^(2n)/(2n)!), ku = k(b-a)/2); the sharper classical Gauss-Legendre constant and the adaptive methods' tolerances are validated_only; REFUTED for adaptive Simpson on the aliasing family (C12_adaptive_alias_family_result, known finding F5e)",
         "reversing the interval negates": "proved for Simpson 1-D/2-D and adaptive Simpson 1-D/2-D (all integrands, C12_adaptive_reverse, C12_adaptive_2d_reverse); proved within 2*bound for certified Gauss-Legendre on polynomials; Gauss-Kronrod, Clenshaw-Curtis validated_only",
         "linear in the integrand": "proved for every fixed rule (Simpson 1-D/2-D, Gauss-Legendre adapter); adaptive methods validated_only",
         "2-D separable = product of 1-D": "proved for tensor rules (C12_tensor, C12_simpson2d_product_of_1d); others validated_only",
